@@ -587,7 +587,7 @@ DEVICE_ID_REGEX = SimpleNamespace(
     HGI=re.compile(r"^18:[0-9]{6}$"),
     APP=re.compile(r"^(10|13):[0-9]{6}$"),
     UFC=re.compile(r"^02:[0-9]{6}$"),
-    SEN=re.compile(r"^(01|03|04|12|22|34):[0-9]{6}$"),
+    SEN=re.compile(r"^(00|01|03|04|12|22|34):[0-9]{6}$"),
 )
 
 # Domains
